@@ -132,6 +132,12 @@ def goIntSigned : GoVal → Option Bool
   | .uint64 _ | .uint _ | .uintptr _ | .uint32 _ | .uint16 _ | .uint8 _ => some false
   | _ => none
 
+/-- the Go integer types `ToObject` has a case for (`int64`, `int`, `rune`, `uint64`, `uint`,
+    `uintptr`, `byte`); `ToObjectAlt` has one for every integer type -/
+def toObjectWidth : GoVal → Bool
+  | .int64 _ | .int _ | .int32 _ | .uint64 _ | .uint _ | .uintptr _ | .uint8 _ => true
+  | _ => false
+
 /-- the mathematical value of a uGO int, uint or char -/
 def objIntValue : Obj → Option Int
   | .int v => some v.toInt
